@@ -198,6 +198,7 @@ type C17Op struct {
 	Bad     int    `json:"bad,omitempty"`     // malformed template, when content == bad
 	GapMS   int    `json:"gap_ms,omitempty"`  // delrec: pause between delete and recreate
 	Cleanup bool   `json:"cleanup,omitempty"` // swap: remove the previous timestamped directory afterwards (as the Kubernetes AtomicWriter does)
+	Settle  bool   `json:"settle,omitempty"`  // content == new only: wait until the view shows this document before going on
 	PauseMS int    `json:"pause_ms"`          // pause after this operation, before the next one
 }
 
@@ -284,9 +285,15 @@ func c17ValidOps(s C17Setup, ops []C17Op, counters map[int]bool, extraPause map[
 			}
 			counters[o.Doc.Counter] = true
 		case "same", "restore", "revert":
+			if o.Settle {
+				return fmt.Errorf("op %d: settle needs new content", i)
+			}
 		case "bad":
 			if o.Bad < 0 || o.Bad >= c17BadTemplates {
 				return fmt.Errorf("op %d: bad template %d", i, o.Bad)
+			}
+			if o.Settle {
+				return fmt.Errorf("op %d: settle needs new content", i)
 			}
 		default:
 			return fmt.Errorf("op %d: content %q", i, o.Content)
@@ -365,6 +372,7 @@ func genC17Op(t *rapid.T, s C17Setup, counter int, content string, atomicOnly, n
 	switch content {
 	case "new":
 		o.Doc = genC17Doc(t, counter)
+		o.Settle = rapid.IntRange(0, 9).Draw(t, "settle") == 0
 	case "bad":
 		o.Bad = rapid.IntRange(0, c17BadTemplates-1).Draw(t, "bad")
 	}
@@ -396,7 +404,13 @@ func c17AvoidKnown(s C17Setup, ops []*C17Op) {
 			o.Cleanup = true
 		}
 		if i+1 < len(ops) && ops[i+1].Mech != "swap" && c17KnownSwapTouch() {
-			o.PauseMS = 30
+			// causal barrier instead of a pause: the watch on the new
+			// directory is in place before the new value is reported
+			if o.Content == "new" {
+				o.Settle = true
+			} else {
+				ops[i+1].Mech, ops[i+1].GapMS = "swap", 0
+			}
 		}
 	}
 }
@@ -960,6 +974,16 @@ func (r *c17Run) awaitView(want c17Config, what string, ops []C17Op) *vrt.Verdic
 	return &v
 }
 
+// settleOp implements the settle flag of operation i (already applied): the
+// file has stopped changing, so the view must come to show its document.
+func (r *c17Run) settleOp(ops []C17Op, i int) *vrt.Verdict {
+	if !ops[i].Settle {
+		return nil
+	}
+	r.label("settle")
+	return r.awaitView(r.w.cur.cfg, fmt.Sprintf("settle step after operation %d", i), ops[:i+1])
+}
+
 // awaitIdleView waits until the view equals want while the watcher is idle.
 // Never seeing the watcher idle is not a failure.
 func (r *c17Run) awaitIdleView(want c17Config, ops []C17Op) *vrt.Verdict {
@@ -992,7 +1016,7 @@ func (r *c17Run) awaitIdleView(want c17Config, ops []C17Op) *vrt.Verdict {
 //     after the file has been read (and not at all while the file is missing),
 //     so an in-place rewrite / rename-over / delete+recreate right after a
 //     swap can go unnoticed. Chosen when some swap is directly followed by
-//     another kind of operation.
+//     another kind of operation without a settle step in between.
 func (r *c17Run) classify(ops []C17Op) string {
 	if r.w.s.Layout != "k8s" {
 		return ""
@@ -1012,7 +1036,7 @@ func (r *c17Run) classify(ops []C17Op) string {
 		}
 	}
 	for i := 0; i+1 < len(ops); i++ {
-		if ops[i].Mech == "swap" && ops[i+1].Mech != "swap" {
+		if ops[i].Mech == "swap" && ops[i+1].Mech != "swap" && !ops[i].Settle {
 			return "k8s-swap-then-touch"
 		}
 	}
@@ -1226,6 +1250,9 @@ func runC17Converge(c C17Case) vrt.Verdict {
 					r.finish()
 					return *v
 				}
+			} else if v := r.settleOp(c.Ops, i); v != nil {
+				r.finish()
+				return *v
 			}
 			if i < len(c.Ops)-1 {
 				c17Sleep(o.PauseMS)
@@ -1324,7 +1351,8 @@ func TestC17Converge(t *testing.T) {
 		ID: "C17", Name: "converge",
 		Rule: "a real temp directory holds a JSON or YAML config file, direct or in the Kubernetes AtomicWriter layout (visible symlink -> <link>/file, <link> -> ..ts-N, link named ..data or ..dir); " +
 			"a real file.WatchingSource (no poll interval) feeds dials.Config; 1..12 operations {in-place truncate+write, temp+rename-over, ..ts-N/<link> swap with or without removal of the old directory, delete+recreate} " +
-			"each writing new valid content (unique counter), identical bytes or malformed content, with pauses of 0/1/30 ms from the case; final content valid, identical to the previous or invalid. " +
+			"each writing new valid content (unique counter), identical bytes, malformed content, the last valid content again (restore) or the valid content before that (revert), with pauses of 0/1/30 ms from the case " +
+			"(a new-content operation may carry a settle flag: wait for the view to show it before going on); final content valid, identical to the previous, restored, reverted or invalid. " +
 			"Oracle by construction: View() must become defaults overlaid with the fields of the final document; when the final content is invalid the harness first waits for the last valid content to be installed " +
 			"(before the trailing invalid operations) and then requires a *file.DecoderErr delivered through OnWatchedError while that config is still installed. " +
 			"Non-convergence at the 10 s deadline is a violation only when three goroutine dumps 300 ms apart all show watchLoop in its select, the fsnotify reader in IO wait and the monitor in its select; otherwise the case is discarded as inconclusive. " +
@@ -1422,8 +1450,12 @@ func runC17Ident(c C17IdentCase) vrt.Verdict {
 		}
 		all := append(append(append([]C17Op{}, c.Prefix...), c.Repl...), c.Change)
 		_, r.labels = c17OpLabels(c.C17Setup, all)
-		for _, o := range c.Prefix {
+		for i, o := range c.Prefix {
 			r.w.apply(o)
+			if v := r.settleOp(c.Prefix, i); v != nil {
+				r.finish()
+				return *v
+			}
 			c17Sleep(o.PauseMS)
 		}
 		// Quiescence: every version of the file has a unique counter, so once
@@ -1527,8 +1559,12 @@ func runC17Release(c C17ReleaseCase) vrt.Verdict {
 			return *v
 		}
 		_, r.labels = c17OpLabels(c.C17Setup, c.Ops)
-		for _, o := range c.Ops[:c.CancelAt] {
+		for i, o := range c.Ops[:c.CancelAt] {
 			r.w.apply(o)
+			if v := r.settleOp(c.Ops, i); v != nil {
+				r.finish()
+				return *v
+			}
 			c17Sleep(o.PauseMS)
 		}
 		c17Sleep(c.CancelDelayMS)
